@@ -444,6 +444,8 @@ class Emitter(object):
                 w("  typedef %s deferred_events;" % self.lst([n.events[e]["name"] for e in ps["deferred"]]))
             if ps["has_data"]:
                 w("  typedef int do_serialize;")
+            if ps["cond_defer"] >= 0 and self.mp:
+                w("  template <class E, class F> bool is_event_deferred(E const&, F&) const { return sim::env().cond_bit(%d); }" % ps["cond_defer"])
         w("  typedef %s initial_state;" % self.lst([self.state_type(r[0]) for r in M["regions"]]))
         if self.v["front"] == "R":
             self.emit_row_function_decls([n.rows[r] for r in M["rows"]])
